@@ -262,17 +262,17 @@ theorem no_response_off_the_books (evs evs' : List Ev) (nm : Name) (imp : Option
   · have h0 : (run .v2 (evs ++ [.express nm imp cbp life v lat defer true])).sts[(run .v2 evs).ints.length]? =
         some (.done .noResponse (run .v2 evs).clock) := by
       have := frame .v2 evs [] nm imp cbp life v lat defer true
-      simpa [reqTrace, initSt, silent, specFire] using this
+      simpa [reqTrace, initSt, silent_v2, specFire] using this
     have := complete_at_most_once .v2 (evs ++ [.express nm imp cbp life v lat defer true]) evs' _ _ _ h0
     simpa using this
-  · rw [run_snoc]; simp [step, onExpress, silent]
-  · rw [run_snoc]; simp [step, onExpress, silent]
+  · rw [run_snoc]; simp [step, onExpress, silent_v2]
+  · rw [run_snoc]; simp [step, onExpress, silent_v2]
 
 /-- the legacy front-end has no `no_response`: the keyword changes nothing -/
 theorem no_response_ignored_v1 (σ : State) (nm : Name) (imp : Option Nat) (cbp : Bool) (life : Nat)
     (v : Verdict) (lat defer : Nat) :
     step .v1 σ (.express nm imp cbp life v lat defer true) = step .v1 σ (.express nm imp cbp life v lat defer false) := by
-  simp [step, onExpress, silent]
+  simp [step, onExpress, silent_v1]
 
 /-- **effective deadline.** Awaited at once: express time + lifetime - except lifetime 0 in the current front-end,
     which is 100 ms; awaited `defer` later: legacy = await + lifetime; current = the original deadline when the
@@ -282,8 +282,8 @@ theorem expiry_cases (now life defer : Nat) :
     (defer < life → expiry .v2 now life defer = now + life) ∧
     (life ≤ defer → expiry .v2 now life defer = now + defer + 100) := by
   refine ⟨rfl, ?_, ?_⟩
-  · intro h; simp only [expiry]; rw [if_pos (by omega)]
-  · intro h; simp only [expiry, grace]; rw [if_neg (by omega)]
+  · intro h; rw [expiry_v2, if_pos (by omega)]
+  · intro h; rw [expiry_v2, if_neg (by omega)]
 
 /-! ### ties: the theorems hold whichever way the events of a turn are ordered -/
 
@@ -489,5 +489,100 @@ example : Plain tieDemo := by
   intro u hu ev hev t
   simp only [tieDemo, List.mem_cons, List.not_mem_nil, or_false] at hu
   rcases hu with h | h | h <;> subst h <;> simp at hev <;> subst hev <;> simp
+
+/-! ### what the model takes from the source text
+
+`Ndn.Gen.C03` (lean/NdnGen/C03.lean) is regenerated from `src/ndn/appv2.py`, `src/ndn/app.py` and
+`src/ndn/name_tree.py` by every check run (`harness/props/pit_extract.py`, `ast` only).  The model computes with its
+constants, operators and class lists (`Pit.lifeOf`, `Pit.expiry`, `Pit.silent`, `Pit.validatorOutcome`); the theorems
+above are therefore theorems about these generated values.  The entries it computes with are pinned in `NdnProofs/Lemmas/PitGen.lean` (`gen_lifetimes`,
+`gen_wait_budget`, `gen_no_response`, `gen_data_verdict`, `gen_table_ok`: every lemma file of C03 / C05 is built on them);
+the guards the model mirrors structurally are pinned here, entry by entry, to the normalised text the model was written from: a source edit that changes one of them changes the
+table and the theorem naming that entry stops checking. -/
+
+/-- **default lifetimes.** An Interest's own lifetime counts when it has one (0 included); without one the current
+    front-end uses `DEFAULT_LIFETIME` = 4000 ms and the legacy front-end waits 100 ms. -/
+theorem default_lifetime (fe : FrontEnd) (l : Nat) :
+    lifeOf fe (some l) = l ∧ lifeOf .v2 none = 4000 ∧ lifeOf .v1 none = 100 :=
+  ⟨lifeOf_some fe l, lifeOf_none_v2, lifeOf_none_v1⟩
+
+/-- the `except` clauses around `wait_for`: `TimeoutError` → `_remove_pending`, `InterestTimeout`; `CancelledError` →
+    `_remove_pending`, `InterestCanceled`; nothing else -/
+theorem gen_wait_handlers :
+    Gen.C03.v2.waitHandlers = [(.timeoutError, true, "InterestTimeout()"), (.cancelledError, true, "InterestCanceled()")] ∧
+    Gen.C03.v1.waitHandlers = [(.timeoutError, true, "InterestTimeout()"), (.cancelledError, true, "InterestCanceled()")] := by
+  decide
+
+/-- `express_raw_interest`: implicit digest split off, `setdefault` of the node, `append_interest`, send, wait -/
+theorem gen_express :
+    Gen.C03.v2.express = "{if Component.TYPE_IMPLICIT_SHA256 == Component.get_type(final_name[-1]): node_name = final_name[:-1]; implicit_sha256 = Component.get_value(final_name[-1]) else: node_name = final_name; implicit_sha256 = b''} PIT.setdefault(node_name, InterestTreeNode()) create_future,setdefault,append_interest,send,_wait_for_data" ∧
+    Gen.C03.v1.express = Gen.C03.v2.express := ⟨rfl, rfl⟩
+
+/-- `_remove_pending`: the node is unlinked only when it is empty AND still the node linked under the name -/
+theorem gen_remove_pending :
+    Gen.C03.v2.removePending = "{if node is PIT.get(node_name) and node.timeout(future): del PIT[node_name]}" ∧
+    Gen.C03.v1.removePending = Gen.C03.v2.removePending := by decide
+
+/-- `_on_data`: every prefix node is offered the Data with `prefix != name` as the is-prefix flag; emptied nodes are
+    deleted after the walk -/
+theorem gen_on_data :
+    Gen.C03.v2.onData = "clean_list = []; {for (prefix, node) in PIT.prefixes(name): {if node.satisfy((name, meta_info, content, sig, raw_packet), prefix != name): clean_list.append(prefix)}}; {for prefix in clean_list: del PIT[prefix]}" ∧
+    Gen.C03.v1.onData = Gen.C03.v2.onData := ⟨rfl, rfl⟩
+
+/-- `_on_nack`: the node is deleted iff `nack_interest` says it is empty -/
+theorem gen_on_nack :
+    Gen.C03.v2.onNack = "node and node.nack_interest(nack_reason, implicit_sha256) => del PIT[node_name]" ∧
+    Gen.C03.v1.onNack = Gen.C03.v2.onNack := by decide
+
+/-- `_clean_up`: every node's futures are cancelled, the table is cleared -/
+theorem gen_clean_up :
+    Gen.C03.v2.cleanUp = "{for node in PIT.itervalues(): node.cancel()}; PIT.clear()" ∧
+    Gen.C03.v1.cleanUp = "{for node in PIT.itervalues(): node.cancel()}; self._prefix_tree.clear(); PIT.clear()" := by
+  decide
+
+/-- `InterestTreeNode.satisfy` (`Pit.passes`, `Pit.satisfyNode`): CanBePrefix-or-exact, implicit digest compared with
+    `==` when one was asked for, unsatisfied entries kept, the list replaced only when some are left -/
+theorem gen_satisfy :
+    Gen.C03.nodeV2.satisfyPasses = "ite(E.can_be_prefix or not is_prefix, ite(E.implicit_sha256, E.implicit_sha256 == sha256(data[4]).digest(), True), False)" ∧
+    Gen.C03.nodeV2.satisfyElse = "L.append(E)" ∧
+    Gen.C03.nodeV2.satisfyKeep = "{if L: self.pending_list = L; return False else: return True}" ∧
+    Gen.C03.nodeV1.satisfyPasses = Gen.C03.nodeV2.satisfyPasses ∧ Gen.C03.nodeV1.satisfyElse = Gen.C03.nodeV2.satisfyElse ∧
+    Gen.C03.nodeV1.satisfyKeep = Gen.C03.nodeV2.satisfyKeep := by decide
+
+/-- a passed entry whose future is already done is skipped (`Pit.deliver`: only a `waiting` Interest changes state):
+    legacy `if not entry.future.done(): set_result`; current: a validation task whose result is dropped by the guard in
+    `PendingIntEntry.satisfy` -/
+theorem gen_satisfy_done_guard :
+    Gen.C03.nodeV1.satisfyHands = "{if not E.future.done(): E.future.set_result(data)}" ∧
+    Gen.C03.nodeV2.satisfyHands = "create_task(E.satisfy(data))" ∧
+    Gen.C03.nodeV2.satisfyDone = "if self.future.cancelled() or self.future.done(): return" := by decide
+
+/-- `nack_interest` (`Pit.onNack`, `Pit.nackEntry`): entries with another implicit digest stay, the named ones are
+    failed unless their future is already done, the list is replaced, the return value says whether it is empty -/
+theorem gen_nack_interest :
+    Gen.C03.nodeV2.nackKeep = "E.implicit_sha256 != implicit_sha256" ∧
+    Gen.C03.nodeV2.nackFails = "E.implicit_sha256 == implicit_sha256 and (not E.future.done()) => E.future.set_exception(InterestNack(nack_reason))" ∧
+    Gen.C03.nodeV2.nackList = "self.pending_list = L; return not L" ∧
+    Gen.C03.nodeV1.nackKeep = Gen.C03.nodeV2.nackKeep ∧ Gen.C03.nodeV1.nackFails = Gen.C03.nodeV2.nackFails ∧
+    Gen.C03.nodeV1.nackList = Gen.C03.nodeV2.nackList := by decide
+
+/-- `timeout` removes exactly the entry of this future (identity), `cancel` cancels every future -/
+theorem gen_timeout_cancel :
+    Gen.C03.nodeV2.timeoutKeep = "E.future is not future" ∧ Gen.C03.nodeV2.timeoutReturn = "not L" ∧
+    Gen.C03.nodeV2.cancel = "E.future.cancel() always" ∧
+    Gen.C03.nodeV1.timeoutKeep = Gen.C03.nodeV2.timeoutKeep ∧ Gen.C03.nodeV1.timeoutReturn = Gen.C03.nodeV2.timeoutReturn ∧
+    Gen.C03.nodeV1.cancel = Gen.C03.nodeV2.cancel := by decide
+
+/-- what stands in for a missing Data validator (current: `FAIL`; legacy: the application-wide `data_validator`)
+    and what a failure raises (current: `ValidationFailure` carrying the verdict; legacy: without one) -/
+theorem gen_data_failure :
+    Gen.C03.v2.dataNoValidator = "valid = ValidResult.FAIL" ∧
+    Gen.C03.v2.dataFailure = "self.future.set_exception(ValidationFailure(name, meta_info, content, sig, valid))" ∧
+    Gen.C03.v1.dataNoValidator = "validator = self.data_validator" ∧
+    Gen.C03.v1.dataFailure = "raise ValidationFailure(data_name, meta_info, content, sig)" := by decide
+
+/-- the outcome table the proofs use is what `Pit.validatorOutcome` comes to for the pinned values of the table -/
+theorem outcome_table (fe : FrontEnd) (v : Verdict) (d : Nat) :
+    validatorOutcome fe v d = validatorOutcomeRef fe v d := validatorOutcome_eq_ref fe v d
 
 end Ndn.C03
